@@ -47,9 +47,15 @@ Definition contains (hay : list participant) (n : participant) : bool :=
   existsb (fun v => equal_participant v n) hay.
 Definition has_addr (hay : list participant) (a : bytes) : bool :=
   existsb (fun v => bytes_eqb (p_addr v) a) hay.
-(* util.ContainsAll: by ADDRESS only *)
+(* util.ContainsAll: by ADDRESS only (no longer used by validateReshareForRemainers) *)
 Definition contains_all (hay needles : list participant) : bool :=
   forallb (fun n => has_addr hay (p_addr n)) needles.
+(* containsAllByAddressAndKey (state_machine.go): every needle has a participant with the same address
+   AND the same public key in the haystack *)
+Definition has_addr_key (hay : list participant) (n : participant) : bool :=
+  existsb (fun v => bytes_eqb (p_addr v) (p_addr n) && bytes_eqb (p_key v) (p_key n)) hay.
+Definition contains_all_ak (hay needles : list participant) : bool :=
+  forallb (has_addr_key hay) needles.
 (* util.Without *)
 Definition without (hay : list participant) (n : participant) : list participant :=
   filter (fun v => negb (equal_participant v n)) hay.
@@ -146,7 +152,7 @@ Inductive err :=
 | ECannotLeaveIfNotALeaver | EOnlyLeaderCanExecute | EOnlyLeaderCanAbort
 | ECannotExecuteIfNotJoinerOrRemainer | EUnknownAcceptor | EDuplicateAcceptance | EInvalidAcceptor
 | EInvalidRejector | EUnknownRejector | EDuplicateRejection | EFinalGroupEmpty | EKeyShareEmpty
-| EReceivedAcceptance | EReceivedRejection
+| EReceivedAcceptance | EReceivedRejection | EMissingPreviousGroup
 | EInvalidKeyScheme                      (* key.ErrInvalidKeyScheme *)
 | EInvalidTransition (from to : status)  (* InvalidStateChange(from, to) *)
 (* ad-hoc errors (errors.New without a sentinel) *)
@@ -250,12 +256,12 @@ Section Machine.
     if negb (unix (t_genesis_time t) =? unix (st_genesis_time d)) then Some EGenesisTimeNotEqual else
     if negb (bytes_eqb (t_genesis_seed t) (st_genesis_seed d)) then Some EGenesisSeedCannotChange else
     match st_final_group d with
-    | None => Some EPanic            (* currentState.FinalGroup.Nodes on a nil FinalGroup *)
+    | None => Some EMissingPreviousGroup   (* the explicit nil check on currentState.FinalGroup *)
     | Some g =>
       let last := g_nodes g in
       let rl := t_remaining t ++ t_leaving t in
-      if negb (contains_all last rl) then Some ERemainingAndLeavingMustExist else
-      if negb (contains_all rl last) then Some EMissingNodes else
+      if negb (contains_all_ak last rl) then Some ERemainingAndLeavingMustExist else
+      if negb (contains_all_ak rl last) then Some EMissingNodes else
       if len (t_remaining t) <? st_threshold d then Some ENodeCountTooLow else None
     end.
 
@@ -371,7 +377,13 @@ Section Machine.
 
   Definition do_executing (now : Z) (me : participant) (d : dbstate) (md : metadata) : res dbstate :=
     if has_timed_out now d then Err ETimeoutReached else
-    if contains (st_leaving d) me && valid_change (st_state d) Left then do_left now me d else
+    if contains (st_leaving d) me && valid_change (st_state d) Left then
+      (* leavers too only act on the leader's signal *)
+      match st_leader d with
+      | None => Err EPanic
+      | Some l => if negb (bytes_eqb (md_addr md) (p_addr l)) then Err EOnlyLeaderCanExecute else do_left now me d
+      end
+    else
     if negb (valid_change (st_state d) Executing) then Err (EInvalidTransition (st_state d) Executing) else
     if negb (contains (st_remaining d) me) && negb (contains (st_joining d) me)
     then Err ECannotExecuteIfNotJoinerOrRemainer else
